@@ -261,7 +261,7 @@ def load_known(pid):
 
 AGGREGATE_KINDS = {"soak", "overlap", "crossfire", "shared", "owners", "mixup", "bursts", "uptime", "crowd", "race",
                    "race-reopen", "race-verdicts", "discover-round", "discover-overlap", "lcconc", "xroute", "loop",
-                   "prodloop", "e2e", "leak", "lifecycle", "recover", "methods", "xlate", "prioseq", "http", "manager", "c14h", "c05hist", "history", "collector-history", "engine-slow", "slowreader", "breaker-scope", "http-breaker"}
+                   "prodloop", "e2e", "leak", "lifecycle", "recover", "methods", "xlate", "prioseq", "http", "manager", "c14h", "c05hist", "history", "collector-history", "engine-slow", "slowreader", "breaker-scope", "http-breaker", "breaker-gauge"}
 
 
 def main():
